@@ -6,8 +6,8 @@
     What the algebra cannot see - a hard-coded constant that bypasses the scale
     is a property of the call graph - is decided on the implementation by the
     plugin (same SI problem under several scales; AST scan of call sites). *)
-From Dino Require Import Base.Ops Base.Sums Base.Inst Model.Sigma Model.Implicit Model.PrimEq Model.Integrators
-  Model.Dual Thm.Dual Model.Scaling Thm.Scaling.
+From Dino Require Import Base.Ops Base.Sums Base.Inst Base.Ord Model.Sigma Model.Implicit Model.PrimEq Model.Forcings
+  Model.Integrators Model.Dual Thm.Dual Thm.Implicit Model.Scaling Thm.Scaling Thm.ScalingColumn.
 From Coq Require Import Qcanon Reals.
 Local Open Scope F_scope.
 
@@ -103,6 +103,56 @@ Section C12.
     - exact (log_pressure_tendency_homogeneous _ _ _ _ _ H1 c x).
     - rewrite H4. exact (combined_uv_homogeneous _ _ _ _ _ H1 H2 c va x n).
   Qed.
+
+  (** the remaining nodal terms: the vertical-advection part of the temperature
+      equation (its branch on a non-uniform T_ref is scale-invariant because the
+      temperature factor is non-zero), the complete nodal right-hand sides of
+      temperature and tracers, and the moist / cloud classes (R_vapor and
+      Cp_vapor scale like R; q, cloud water and ice are dimensionless) *)
+  Theorem C12_moist_and_vertical_terms_homogeneous (s : scale) (c : PEcfg) (m : Moist) (x : NCol)
+      (q qc qi gqx gqy : nat -> F) lap va sparse n :
+    scale_nz s -> (forall a b : F, feqb a b = true <-> a = b) -> cR c <> 0 -> ckappa c <> 0 -> (n < cK c)%nat ->
+    let kg := factor s d_invlen in let kT := factor s d_temp in let kr := factor s d_rate in
+    let x' := scale_ncol (factor s d_vel) kr kT kg x in
+    let c' := scale_cfg kT (factor s d_gas) c in
+    let m' := scale_moist (factor s d_gas) m in
+    tref_nonuniform c' = tref_nonuniform c /\
+    temp_vertical_tendency c' va x' n = factor s d_temp_rate * temp_vertical_tendency c va x n /\
+    temp_nodal_total c' va x' n = factor s d_temp_rate * temp_nodal_total c va x n /\
+    tracer_nodal_total c' va x' q n = kr * tracer_nodal_total c va x q n /\
+    temp_adiabatic_moist c' m' x' q n = factor s d_temp_rate * temp_adiabatic_moist c m x q n /\
+    temp_nodal_total_moist c' va m' x' q n = factor s d_temp_rate * temp_nodal_total_moist c va m x q n /\
+    combined_u c' va x' (rt_moist c' m' x' q) n = factor s d_accel * combined_u c va x (rt_moist c m x q) n /\
+    combined_v c' va x' (rt_moist c' m' x' q) n = factor s d_accel * combined_v c va x (rt_moist c m x q) n /\
+    combined_u c' va x' (rt_cloud c' m' x' q qc qi) n = factor s d_accel * combined_u c va x (rt_cloud c m x q qc qi) n /\
+    combined_v c' va x' (rt_cloud c' m' x' q qc qi) n = factor s d_accel * combined_v c va x (rt_cloud c m x q qc qi) n /\
+    humidity_div_nodal c' m' x' q (scol kg gqx) (scol kg gqy) (kg * kg * lap) n
+      = factor s d_rate2 * humidity_div_nodal c m x q gqx gqy lap n /\
+    humidity_curl_nodal c' m' x' (scol kg gqx) (scol kg gqy) n = factor s d_rate2 * humidity_curl_nodal c m x gqx gqy n /\
+    humidity_geo_nodal c' sparse m' x' q n = factor s d_geopot * humidity_geo_nodal c sparse m x q n.
+  Proof.
+    intros Hs Hfe HR Hkap Hn kg kT kr x' c' m'.
+    assert (H1 : factor s d_vel * kg = kr) by (unfold kg, kr; rewrite <- factor_add by exact Hs; reflexivity).
+    assert (H2 : factor s d_gas * kT * kg = factor s d_vel * kr)
+      by (unfold kg, kr, kT; rewrite <- !factor_add by exact Hs; reflexivity).
+    assert (H3 : factor s d_temp_rate = kT * kr) by (unfold kr, kT; rewrite <- factor_add by exact Hs; reflexivity).
+    assert (H4 : factor s d_accel = factor s d_vel * kr) by (unfold kr; rewrite <- factor_add by exact Hs; reflexivity).
+    assert (H5 : factor s d_rate2 = kT * factor s d_gas * (kg * kg))
+      by (unfold kg, kT; rewrite <- !factor_add by exact Hs; reflexivity).
+    assert (H6 : factor s d_geopot = factor s d_gas * kT) by (unfold kT; rewrite <- factor_add by exact Hs; reflexivity).
+    assert (NT : kT <> 0) by (now apply factor_nonzero).
+    assert (NR : factor s d_gas <> 0) by (now apply factor_nonzero).
+    pose proof (combined_uv_moist_homogeneous _ _ _ _ _ H1 H2 c NR HR m va x q qc qi n) as [[M1 M2] [M3 M4]].
+    pose proof (humidity_terms_homogeneous (factor s d_vel) kr kT kg _ c NR HR m sparse x q gqx gqy lap n Hn) as (U1 & U2 & U3).
+    rewrite H3, H4, H5, H6.
+    repeat split; try assumption.
+    - exact (tref_nonuniform_scale_invariant _ _ _ _ _ H1 H2 c Hfe NT).
+    - exact (temp_vertical_tendency_homogeneous _ _ _ _ _ H1 H2 c Hfe NT va x n).
+    - exact (temp_nodal_total_homogeneous _ _ _ _ _ H1 H2 c Hfe NT va x n).
+    - exact (tracer_nodal_total_dimensionless (factor s d_vel) kr kT kg (factor s d_gas) H1 c va x q n).
+    - exact (temp_adiabatic_moist_homogeneous _ _ _ _ _ H1 c NR HR m x q n Hkap).
+    - exact (temp_nodal_total_moist_homogeneous _ _ _ _ _ H1 H2 c Hfe NT NR HR m va x q n Hkap).
+  Qed.
 End C12.
 
 (** time stepping: if the equations under the second scale are the rescaled
@@ -125,23 +175,28 @@ Section C12_steps.
   Notation S := (Sc L c0).
   Hypothesis HF : forall u, Fx' (S u) = Tn L tau (Fx u).
   Hypothesis HG : forall u, G' (S u) = Tn L tau (G u).
-  Hypothesis HGinv : forall u eta, Ginv' (S u) (tau * eta) = S (Ginv u eta).
+  (** [ok eta]: the implicit solve with step size [eta] is well defined; only the
+      step sizes an integrator really uses have to be [ok] *)
+  Variable ok : F -> Prop.
+  Hypothesis HGinv : forall u eta, ok eta -> Ginv' (S u) (tau * eta) = S (Ginv u eta).
 
   Theorem C12_step_covariant dt alpha al be ga a_ex a_im b_ex b_im u p q :
-    euler_step Fx' Ginv' (tau * dt) (S u) = S (euler_step Fx Ginv dt u) /\
-    cn_rk2_step Fx' G' Ginv' (tau * dt) (S u) = S (cn_rk2_step Fx G Ginv dt u) /\
-    ls_step Fx' G' Ginv' (tau * dt) al be ga (S u) = S (ls_step Fx G Ginv dt al be ga u) /\
-    imex_step Fx' G' Ginv' (tau * dt) a_ex a_im b_ex b_im (S u)
-      = option_map S (imex_step Fx G Ginv dt a_ex a_im b_ex b_im u) /\
-    leapfrog_step Fx' G' Ginv' (tau * dt) alpha (S p, S q)
-      = (S (fst (leapfrog_step Fx G Ginv dt alpha (p, q))), S (snd (leapfrog_step Fx G Ginv dt alpha (p, q)))).
+    (ok dt -> euler_step Fx' Ginv' (tau * dt) (S u) = S (euler_step Fx Ginv dt u)) /\
+    (ok (half * dt) -> cn_rk2_step Fx' G' Ginv' (tau * dt) (S u) = S (cn_rk2_step Fx G Ginv dt u)) /\
+    (ls_ok ok dt al -> ls_step Fx' G' Ginv' (tau * dt) al be ga (S u) = S (ls_step Fx G Ginv dt al be ga u)) /\
+    (imex_ok ok dt 1 a_im ->
+       imex_step Fx' G' Ginv' (tau * dt) a_ex a_im b_ex b_im (S u)
+       = option_map S (imex_step Fx G Ginv dt a_ex a_im b_ex b_im u)) /\
+    (ok (two * dt * alpha) ->
+       leapfrog_step Fx' G' Ginv' (tau * dt) alpha (S p, S q)
+       = (S (fst (leapfrog_step Fx G Ginv dt alpha (p, q))), S (snd (leapfrog_step Fx G Ginv dt alpha (p, q))))).
   Proof.
-    split; [|split; [|split; [|split]]].
-    - exact (euler_step_covariant vadd_assoc vadd_comm vscal_mul L c0 tau L_add L_scal tau_nz Fx Ginv Fx' Ginv' HF HGinv dt u).
-    - exact (cn_rk2_step_covariant vadd_assoc vadd_comm vscal_add vscal_mul L c0 tau L_add L_scal tau_nz Fx G Ginv Fx' G' Ginv' HF HG HGinv dt u).
-    - exact (ls_step_covariant vadd_assoc vadd_comm vscal_add vscal_mul vscal_zero L c0 tau L_add L_scal L_zero tau_nz Fx G Ginv Fx' G' Ginv' HF HG HGinv dt al be ga u).
-    - exact (imex_step_covariant vadd_assoc vadd_comm vscal_add vscal_mul vscal_zero L c0 tau L_add L_scal L_zero tau_nz Fx G Ginv Fx' G' Ginv' HF HG HGinv dt a_ex a_im b_ex b_im u).
-    - exact (leapfrog_covariant vadd_assoc vadd_comm vscal_add vscal_mul L c0 tau L_add L_scal tau_nz Fx G Ginv Fx' G' Ginv' HF HG HGinv dt alpha p q).
+    split; [|split; [|split; [|split]]]; intros Hok.
+    - exact (euler_step_covariant vadd_assoc vadd_comm vscal_mul L c0 tau L_add L_scal tau_nz Fx Ginv Fx' Ginv' HF ok HGinv dt u Hok).
+    - exact (cn_rk2_step_covariant vadd_assoc vadd_comm vscal_add vscal_mul L c0 tau L_add L_scal tau_nz Fx G Ginv Fx' G' Ginv' HF HG ok HGinv dt u Hok).
+    - exact (ls_step_covariant vadd_assoc vadd_comm vscal_add vscal_mul vscal_zero L c0 tau L_add L_scal L_zero tau_nz Fx G Ginv Fx' G' Ginv' HF HG ok HGinv dt al be ga u Hok).
+    - exact (imex_step_covariant vadd_assoc vadd_comm vscal_add vscal_mul vscal_zero L c0 tau L_add L_scal L_zero tau_nz Fx G Ginv Fx' G' Ginv' HF HG ok HGinv dt a_ex a_im b_ex b_im u Hok).
+    - exact (leapfrog_covariant vadd_assoc vadd_comm vscal_add vscal_mul L c0 tau L_add L_scal tau_nz Fx G Ginv Fx' G' Ginv' HF HG ok HGinv dt alpha p q Hok).
   Qed.
 
   (** k filtered steps: trajectories under two scales stay related by [S] *)
@@ -151,6 +206,99 @@ Section C12_steps.
     forall k u, Nat.iter k (step_with_filters step' fl') (S u) = S (Nat.iter k (step_with_filters step fl) u).
   Proof. exact (trajectory_covariant L c0 step step' fl fl'). Qed.
 End C12_steps.
+
+(** The hypotheses of [C12_step_covariant] on the implicit terms and on the
+    resolvent are theorems for the implicit column model of the primitive
+    equations (Model/Implicit.v; one spectral coefficient with Laplacian
+    eigenvalue [lam]; state = divergence[K], temperature[K], lnps; change of
+    scale = multiplication by the factors of T^-1 and Theta and a shift of lnps
+    in the mean mode).  Only the explicit terms stay abstract. *)
+Section C12_column.
+  Context {F : Type} {o : Ops F} {Fc : FieldC o}.
+
+  (** the three relations between the multipliers hold for every scale *)
+  Theorem C12_column_relations (s : scale) :
+    scale_nz s ->
+    factor s d_time * factor s d_rate = 1 /\
+    factor s d_gas * factor s d_temp * factor s (mkdim (-2) 0 0 0) = factor s d_rate * factor s d_rate.
+  Proof.
+    intros Hs. split.
+    - rewrite <- factor_add by exact Hs. apply factor_zero.
+    - rewrite <- !factor_add by exact Hs. reflexivity.
+  Qed.
+
+  Variables (kr kT kR kl tau shift : F) (c : @PEcfg F) (lam : F) (inv : nat -> @Mat F -> @Mat F).
+  Hypothesis H_time : tau * kr = 1.
+  Hypothesis H_geo : kR * kT * kl = kr * kr.
+  Hypothesis H_shift : shift * lam = 0.
+  Hypothesis feqb_sound : forall x y : F, feqb x y = true -> x = y.
+  Hypothesis th0_nz : thickness (cb c) 0%nat <> 0.
+  Hypothesis thK_nz : thickness (cb c) (cK c - 1)%nat <> 0.
+  Notation c' := (scale_cfg kT kR c).
+  Notation S := (Sc (vo := ColOps) (col_L (cK c) kr kT) (col_shift shift)).
+  Notation ok := (col_ok kT kR kl tau c lam inv).
+
+  Theorem C12_column_hypotheses_discharged :
+    (forall u, col_G c' (kl * lam) (S u) = Tn (vo := ColOps) (col_L (cK c) kr kT) tau (col_G c lam u)) /\
+    (forall u eta, ok eta -> col_Ginv inv c' (kl * lam) (S u) (tau * eta) = S (col_Ginv inv c lam u eta)).
+  Proof.
+    split.
+    - exact (column_implicit_terms_covariant kr kT kR kl tau shift c lam H_time H_geo H_shift).
+    - exact (column_resolvent_covariant kr kT kR kl tau shift c lam H_time H_geo H_shift inv feqb_sound th0_nz thK_nz).
+  Qed.
+
+  Theorem C12_column_steps_covariant (Fx Fx' : @Col F -> @Col F) dt alpha al be ga a_ex a_im b_ex b_im u p q :
+    (forall u, Fx' (S u) = Tn (vo := ColOps) (col_L (cK c) kr kT) tau (Fx u)) ->
+    let G0 := col_G c lam in let G1 := col_G c' (kl * lam) in
+    let Gi0 := col_Ginv inv c lam in let Gi1 := col_Ginv inv c' (kl * lam) in
+    (ok dt -> euler_step (vo := ColOps) Fx' Gi1 (tau * dt) (S u) = S (euler_step (vo := ColOps) Fx Gi0 dt u)) /\
+    (ok (half * dt) -> cn_rk2_step (vo := ColOps) Fx' G1 Gi1 (tau * dt) (S u) = S (cn_rk2_step (vo := ColOps) Fx G0 Gi0 dt u)) /\
+    (ls_ok ok dt al -> ls_step (vo := ColOps) Fx' G1 Gi1 (tau * dt) al be ga (S u) = S (ls_step (vo := ColOps) Fx G0 Gi0 dt al be ga u)) /\
+    (imex_ok ok dt 1 a_im ->
+       imex_step (vo := ColOps) Fx' G1 Gi1 (tau * dt) a_ex a_im b_ex b_im (S u)
+       = option_map S (imex_step (vo := ColOps) Fx G0 Gi0 dt a_ex a_im b_ex b_im u)) /\
+    (ok (two * dt * alpha) ->
+       leapfrog_step (vo := ColOps) Fx' G1 Gi1 (tau * dt) alpha (S p, S q)
+       = (S (fst (leapfrog_step (vo := ColOps) Fx G0 Gi0 dt alpha (p, q))),
+          S (snd (leapfrog_step (vo := ColOps) Fx G0 Gi0 dt alpha (p, q))))).
+  Proof.
+    intros HF G0 G1 Gi0 Gi1.
+    exact (column_steps_covariant kr kT kR kl tau shift c lam H_time H_geo H_shift inv feqb_sound th0_nz thK_nz
+             Fx Fx' HF dt alpha al be ga a_ex a_im b_ex b_im u p q).
+  Qed.
+End C12_column.
+
+(** Held-Suarez forcing (Model/Forcings.v), over an ordered field with a
+    positive temperature scale: Rayleigh and Newtonian rates scale like 1/T,
+    the equilibrium temperature (including the max with minT) like Theta, p/p0
+    is invariant, and the nodal tendencies come out in L/T^2 and Theta/T.
+    (p/p0)^kappa and log(p/p0) are inputs evaluated at the invariant p/p0. *)
+Section C12_held_suarez.
+  Context {F : Type} {o : Ops F} {Oc : OrdFieldC o}.
+
+  Theorem C12_held_suarez_homogeneous (s : scale) (P : HSParams F) sigma ps cl sl pk logp tref tvar cu :
+    scale_nz s -> flt 0 (factor s d_temp) -> hp_p0 P <> 0 ->
+    let kp := factor s d_pressure in let kr := factor s d_rate in let kT := factor s d_temp in
+    let P' := scale_hs kp kr kT P in
+    hs_kv P' sigma = kr * hs_kv P sigma /\ hs_kt P' sigma cl = kr * hs_kt P sigma cl /\
+    hs_p_over_p0 P' sigma (kp * ps) = hs_p_over_p0 P sigma ps /\
+    hs_teq P' pk logp cl sl = kT * hs_teq P pk logp cl sl /\
+    hs_nodal_velocity_tendency (hs_kv P' sigma) (factor s d_vel * cu) cl
+      = factor s d_accel * hs_nodal_velocity_tendency (hs_kv P sigma) cu cl /\
+    hs_nodal_temperature_tendency (hs_kt P' sigma cl) (kT * tref) (kT * tvar) (hs_teq P' pk logp cl sl)
+      = factor s d_temp_rate * hs_nodal_temperature_tendency (hs_kt P sigma cl) tref tvar (hs_teq P pk logp cl sl).
+  Proof.
+    intros Hs HT Hp0 kp kr kT P'.
+    assert (A1 : factor s d_accel = kr * factor s d_vel) by (unfold kr; rewrite <- factor_add by exact Hs; reflexivity).
+    assert (A2 : factor s d_temp_rate = kr * kT) by (unfold kr, kT; rewrite <- factor_add by exact Hs; reflexivity).
+    destruct (hs_rates_homogeneous kp kr kT P sigma cl) as [R1 R2].
+    split; [exact R1|]. split; [exact R2|]. split; [|split; [|split]].
+    - apply hs_p_over_p0_invariant; [now apply factor_nonzero | exact Hp0].
+    - exact (proj2 (hs_teq_homogeneous kp kr kT P pk logp cl sl HT)).
+    - unfold P'. rewrite R1, A1. exact (proj1 (hs_nodal_tendencies_homogeneous kr kT (factor s d_vel) _ cu cl 0 0 0 0)).
+    - rewrite A2. exact (hs_temperature_forcing_homogeneous kp kr kT 0 P sigma cl sl pk logp tref tvar HT).
+  Qed.
+End C12_held_suarez.
 
 Section C12_lnps.
   Context {F : Type} {o : Ops F} {Fc : FieldC o}.
@@ -235,14 +383,53 @@ Proof.
       all: intro H; apply Hnz; rewrite <- H; field; exact T3.
 Qed.
 
+(** Non-vacuity of the column-model hypotheses over Qc: one layer, l = 1 on the
+    unit sphere (lam = -2), tau = 3 (kr = 1/3), kT = 5, kl = 4, kR = 1/180, and
+    [inv] = the adjugate formula for 3 x 3 matrices: the three relations hold and
+    [col_ok (1/2)] (right inverse under the first scale, left inverse under the
+    second) is true, with non-zero layer thickness. *)
+Definition inv3 (M : @Mat Qc) : @Mat Qc :=
+  let cof := fun i j : nat =>
+    M ((i + 1) mod 3)%nat ((j + 1) mod 3)%nat * M ((i + 2) mod 3)%nat ((j + 2) mod 3)%nat
+    - M ((i + 1) mod 3)%nat ((j + 2) mod 3)%nat * M ((i + 2) mod 3)%nat ((j + 1) mod 3)%nat in
+  let det := M 0%nat 0%nat * cof 0%nat 0%nat + M 0%nat 1%nat * cof 0%nat 1%nat + M 0%nat 2%nat * cof 0%nat 2%nat in
+  fun i j => cof j i / det.
+
+Example C12_column_hyps_satisfiable :
+  let q := fun z : Q => Q2Qc z in
+  let c := mkPE 1 (q 287) (q (2 # 7)) (fun _ => q (- 7 # 10)) (fun k => match k with O => q 0 | _ => q 1 end) (fun _ => q 250) in
+  let kr := q (1 # 3) in let kT := q 5 in let kR := q (1 # 180) in let kl := q 4 in let tau := q 3 in
+  let lam := q (- 2) in let inv := fun (_ : nat) (M : @Mat Qc) => inv3 M in
+  tau * kr = 1 /\ kR * kT * kl = kr * kr /\ q 0 * lam = 0 /\
+  thickness (cb c) 0%nat <> 0 /\ thickness (cb c) (cK c - 1)%nat <> 0 /\
+  col_ok kT kR kl tau c lam inv (q (1 # 2)).
+Proof.
+  cbv zeta.
+  split; [apply Qc_is_canon; vm_compute; reflexivity|].
+  split; [apply Qc_is_canon; vm_compute; reflexivity|].
+  split; [apply Qc_is_canon; vm_compute; reflexivity|].
+  split; [intro H; vm_compute in H; discriminate H|].
+  split; [intro H; vm_compute in H; discriminate H|].
+  split; intros i j Hi Hj;
+    destruct i as [|[|[|i]]]; try (exfalso; cbn in Hi; lia);
+    destruct j as [|[|[|j]]]; try (exfalso; cbn in Hj; lia);
+    apply Qc_is_canon; vm_compute; reflexivity.
+Qed.
+
 Print Assumptions C12_factor_homomorphism.
 Print Assumptions C12_welldim_homogeneous.
 Print Assumptions C12_scale_independence.
 Print Assumptions C12_columns_homogeneous.
 Print Assumptions C12_nodal_terms_homogeneous.
+Print Assumptions C12_moist_and_vertical_terms_homogeneous.
 Print Assumptions C12_step_covariant.
 Print Assumptions C12_trajectory_covariant.
+Print Assumptions C12_column_relations.
+Print Assumptions C12_column_hypotheses_discharged.
+Print Assumptions C12_column_steps_covariant.
+Print Assumptions C12_held_suarez_homogeneous.
 Print Assumptions C12_log_pressure_shift.
 Print Assumptions C12_p_over_p0_invariant.
 Print Assumptions C12_p_over_p0_invariant_R.
 Print Assumptions C12_hyps_satisfiable.
+Print Assumptions C12_column_hyps_satisfiable.
